@@ -26,10 +26,10 @@ M = [
   ('m05', 'C03', 'scales/loadbalancer/heap.py', 'm = 2 * i if (j == i * 2 or heap[2*i] < heap[2*i+1]) else 2*i+1', 'm = 2 * i if (j == i * 2 or heap[2*i+1] < heap[2*i]) else 2*i+1'),
   ('m06', 'C04', 'scales/loadbalancer/heap.py', '    if node.load == self.Idle or node.load >= 0:\n      node.channel.Close()', '    if True:\n      node.channel.Close()'),
   ('m07', 'C04', 'scales/loadbalancer/heap.py', '    elif n.index < 0 and n.load == self.Idle:\n      n.channel.Close()', '    elif n.index < 0 and n.load == self.Idle:\n      pass'),
-  ('m08', 'C04', 'scales/loadbalancer/heap.py', '        if not put_called[0]:\n          with self._heap_lock:\n            put_called[0] = True\n            self.__Put(n)', '        if not put_called[0]:\n          with self._heap_lock:\n            put_called[0] = n.load > self.Idle + 1\n            self.__Put(n)'),
+  ('m08', 'C04', 'scales/loadbalancer/heap.py', "    n.load -= 1\n    if n.load < self.Idle:", "    n.load -= 1 if n.index >= 0 or n.load > self.Idle + 1 else 0\n    if n.load < self.Idle:"),
   ('m09', 'C05', 'scales/loadbalancer/base.py', "    self.__init_done.wait()\n    self.__RemoveServer(instance)", "    self.__RemoveServer(instance)"),
   ('m10', 'C05', 'scales/loadbalancer/aperture.py', "    if endpoint in self._idle_endpoints:\n      self._idle_endpoints.discard(endpoint)\n", ""),
-  ('m11', 'C06', 'scales/loadbalancer/aperture.py', "    if num_healthy > self._min_size:\n      least_loaded_endpoint = None", "    if num_healthy >= self._min_size:\n      least_loaded_endpoint = None"),
+  ('m11', 'C06', 'scales/loadbalancer/aperture.py', ["    if num_healthy > self._min_size:\n      least_loaded_endpoint = None", "elif aperture_load <= self._min_load and aperture_size > self._min_size:"], ["    if num_healthy >= self._min_size:\n      least_loaded_endpoint = None", "elif aperture_load <= self._min_load and aperture_size >= self._min_size:"]),
   ('m12', 'C06', 'scales/loadbalancer/aperture.py', "and aperture_size < self._max_size):", "and aperture_size <= self._max_size):"),
   ('m13', 'C06', 'scales/loadbalancer/aperture.py', "elif aperture_load <= self._min_load and aperture_size > self._min_size:", "elif aperture_load <= self._min_load and aperture_size > self._min_size + 1:"),
   ('m14', 'C06', 'scales/loadbalancer/aperture.py', "    if (aperture_load >= self._max_load\n        and self._idle_endpoints", "    if (aperture_load >= self._max_load * 4\n        and self._idle_endpoints"),
@@ -45,7 +45,7 @@ M = [
   ('m24', 'C09', 'scales/resurrector.py', "      gevent.sleep(0)\n      sink_stack.AsyncProcessResponseMessage(MethodReturnMessage(error=FailedFastError()))", "      gevent.sleep(0.2)\n      sink_stack.AsyncProcessResponseMessage(MethodReturnMessage(error=FailedFastError()))"),
   ('m25', 'C09', 'scales/resurrector.py', "      wait_interval = min(wait_interval, self._max_wait_interval)", "      wait_interval = max(wait_interval, self._max_wait_interval * 2)"),
   ('m26', 'C10', 'scales/timer_queue.py', "    if self._queue[0][0] == deadline:\n      self._event.set()", "    if len(self._queue) == 1:\n      self._event.set()"),
-  ('m27', 'C10', 'scales/timer_queue.py', "      timeout_args[2] = True\n", "      timeout_args[2] = timeout_args[0] > self._time_source() + 1\n"),
+  ('m27', 'C10', 'scales/timer_queue.py', "      timeout_args[2] = True\n      # Null out to avoid holding onto references.\n      timeout_args[3] = None", "      if timeout_args[0] > self._time_source() + 0.02:\n        timeout_args[2] = True\n        timeout_args[3] = None"),
   ('m28', 'C11', 'scales/mux/sink.py', "        if timeout_tag:\n          self._OnTimeout(timeout_tag)", "        if timeout_tag:\n          self._OnTimeout(timeout_tag)\n          self._ReleaseTag(timeout_tag)"),
   ('m29', 'C11', 'scales/mux/sink.py', "    self._next = 1\n", "    self._next = 0\n"),
   ('m30', 'C12', 'scales/thrift/sink.py', "          if timeout < 0:\n            raise gevent.Timeout()\n", ""),
@@ -61,14 +61,14 @@ M = [
   ('m40', 'C15', 'scales/kafka/protocol.py', "    msg_set_len = sum([8 + 4 + 4 + len(p) + 10 for p in payloads])", "    msg_set_len = sum([8 + 4 + 4 + len(p) + 10 for p in payloads if p])"),
   ('m41', 'C16', 'scales/sink.py', "      if self._ref_count == 0:\n        return\n      self._ref_count -= 1", "      self._ref_count -= 1"),
   ('m42', 'C16', 'scales/pool/singleton.py', "    elif self.next_sink.is_closed:", "    elif self.next_sink.is_closed and self._ref_count > 1:"),
-  ('m43', 'C17', 'scales/asynchronous.py', "      if self.exception:\n        target.set_exception(self.exception)\n      else:\n        if isinstance(self.value, AsyncResult):", "      if self.exception and not isinstance(self.value, AsyncResult):\n        target.set_exception(self.exception)\n      else:\n        if isinstance(self.value, AsyncResult) and self.value is not self:"),
+  ('m43', 'C17', 'scales/asynchronous.py', "        if isinstance(self.value, AsyncResult):\n          self.value._UnwrapHelper(target)", "        if isinstance(self.value, AsyncResult) and not self.value.ready():\n          self.value._UnwrapHelper(target)"),
   ('m44', 'C17', 'scales/asynchronous.py', "      elif total[0] == 0:\n        ret.set_exception(_ar.exception)", "      elif total[0] <= 1:\n        ret.set_exception(_ar.exception)"),
   ('m45', 'C18', 'scales/dispatch.py', "        if host_source:\n          MessageDispatcher.Varz.exception_messages(host_source) # pylint: disable=no-member\n        ar.set_exception(self._WrapException(msg))", "        if host_source and not isinstance(msg.error, TimeoutError):\n          MessageDispatcher.Varz.exception_messages(host_source) # pylint: disable=no-member\n        ar.set_exception(self._WrapException(msg))"),
   ('m46', 'C18', 'scales/varz.py', "    return self.to_tuple() == other.to_tuple()", "    return self is other or (self.endpoint is None and self.to_tuple() == other.to_tuple())"),
   ('m47', 'C19', 'scales/loadbalancer/zookeeper.py', "    removed_nodes = current_nodes - children\n", "    removed_nodes = (current_nodes - children) if len(children) else set()\n"),
   ('m48', 'C19', 'scales/loadbalancer/zookeeper.py', "        for m in new_members:\n          try:\n            self._on_join(m)\n          except Exception:\n            self._log.exception('Error in OnJoin callback.')", "        for m in new_members:\n          self._on_join(m)"),
-  ('m49', 'C02', 'scales/mux/sink.py', "    tup = self._tag_map.pop(tag, None)\n    if tup is not None:", "    tup = self._tag_map.pop(tag, None) or (self._tag_map.popitem()[1] if len(self._tag_map) > 2 else None)\n    if tup is not None:"),
-  ('m50', 'C01', 'scales/sink.py', "      if deadline < now:\n        self._TimeoutHelper(None, sink_stack)\n        return", "      if deadline < now - 0.05:\n        self._TimeoutHelper(None, sink_stack)\n        return"),
+  ('m49', 'C11', 'scales/mux/sink.py', "    tup = self._tag_map.pop(tag, None)\n    if tup is not None:", "    tup = self._tag_map.pop(tag, None) or (self._tag_map.popitem()[1] if len(self._tag_map) > 2 else None)\n    if tup is not None:"),
+  ('m50', 'C01', 'scales/dispatch.py', "      cancel_timeout()\n      if not ret.ready():", "      cancel_timeout()\n      if True:"),
 ]
 
 
@@ -94,7 +94,9 @@ def main():
     shutil.copytree('/repo/test', os.path.join(d, 'test'))
     p = os.path.join(d, rel)
     src = open(p).read()
-    n = src.count(old)
+    olds = old if isinstance(old, list) else [old]
+    news = new if isinstance(new, list) else [new]
+    n = min(src.count(o) for o in olds) if all(src.count(o) == 1 for o in olds) else 0
     rec = {'id': mid, 'property': prop, 'file': rel}
     if n != 1:
       rec['status'] = 'not-applicable (pattern occurs %d times)' % n
@@ -102,7 +104,9 @@ def main():
       print(mid, prop, rec['status'])
       shutil.rmtree(d)
       continue
-    open(p, 'w').write(src.replace(old, new))
+    for o, nw in zip(olds, news):
+      src = src.replace(o, nw)
+    open(p, 'w').write(src)
     t = run(['/venv/bin/python', '-m', 'pytest', '-q', '-p', 'no:cacheprovider', '-x', 'test/scales'], cwd=d)
     tests_ok = b'52 passed' in t.stdout
     rec['unit_tests_pass'] = tests_ok
